@@ -16,6 +16,11 @@ def build(repo, tier, seed):
     b = classlaws.bundle(repo, tier, seed, ("L1", "L3", "L4a"), classes=["Option"], extra_vcs=vcs + v2, bounded=False, crosscheck=True)
     b["syntactic"] += syn2 + syn3 + syn4 + syn5
     b["undecided"] += und + u2 + u3 + u4 + u5
+    from . import frame_state
+    b["syntactic"] += frame_state.obligations(repo)
+    b["assumptions"].append("no hidden state: outside constructors and the declared mutators no method of a class reaching the labrea ABCs stores into its receiver, its class or a module global, "
+                            "changes a container held in a field in place, or is wrapped in a memoising decorator; no function changes a module-level container except the declared owners of the "
+                            "runtime and lock tables (AST frame, groups <Class>:frame and <module>:globals-frame)")
     from harness import lawsearch
 
     def witness(group, names, seed, inner=b["witness"]):
